@@ -6,12 +6,12 @@ import csv
 import math
 
 
-def parse_inputs(lib, out_dir, comp):
+def parse_inputs(lib, out_dir, comp, fnprior='aifeyn_'):
     with open('%s/unique_equations_%d.txt' % (lib, comp)) as f:
         uniq = f.read().splitlines()
     with open('%s/all_equations_%d.txt' % (lib, comp)) as f:
         allf = f.read().splitlines()
-    with open('%s/aifeyn_%d.txt' % (lib, comp)) as f:
+    with open('%s/%s%d.txt' % (lib, fnprior, comp)) as f:
         aif = [float(t) for t in f.read().split()]
     rows = []
     with open('%s/codelen_matches_comp%d.dat' % (out_dir, comp)) as f:
